@@ -197,17 +197,13 @@ Theorem C11_run_keys_wellformed : forall ops m, run ops = Ok m -> NoDup (keys m)
 Proof. exact (fun ops m H => conj (proj1 (Inv_run ops m H)) (Inv_in_table m (Inv_run ops m H))). Qed.
 Print Assumptions C11_run_keys_wellformed.
 
-(* ---------- dispatch: every member class the topology API hands out (regenerated list) is routed by both collectors.
-   FULL STATEMENT (false of the current code):  forallb routed produced_classes = true.
-   PortMirrorService (a subclass of NetworkService, handed out by topo.network_services for every port mirror) is looked
-   up by exact class and rejected: known finding, proposed_fixes/C11-1.patch. ---------- *)
-Theorem C11_dispatch_classes_partial : forallb (fun c => routed c || smem_s c known_unrouted) produced_classes = true.
-Proof. exact dispatch_classes_partial_b. Qed.
-Print Assumptions C11_dispatch_classes_partial.
-
-Theorem C11_dispatch_classes_refuted : exists c, In c produced_classes /\ routed c = false.
-Proof. exact dispatch_classes_refuted_w. Qed.
-Print Assumptions C11_dispatch_classes_refuted.
+(* ---------- dispatch: every member class the topology API hands out (regenerated from Topology._get_node_by_id /
+   _get_ns_by_id: Node, NetworkService, PortMirrorService) is routed by both collectors' METHOD_LUT (exact-class lookup).
+   Before /repo 08ccccb PortMirrorService was missing from both tables (found by this obligation; tools/revert_try.sh
+   C11 08ccccb breaks it again and yields a concrete member-wise case). ---------- *)
+Theorem C11_dispatch_classes : forallb routed produced_classes = true.
+Proof. exact dispatch_classes_b. Qed.
+Print Assumptions C11_dispatch_classes.
 
 (* ---------- topology object vs serialized model: the ASM path walks the reloaded graph by class; for ANY enumeration
    order of the same elements (and of each node's components) it yields the same attributes as the topology path.
